@@ -162,18 +162,20 @@ def colIsize (v : Option CifValue) : Col Int :=
 
 def missingValue : CDiag := (.invalidating, "Missing value in coordinate atoms data loop")
 
-/-- one row of the atom_site loop; `vals` are the 27 looked-up columns in the order of `atomColumns` -/
-def atomRow (o : ReadOpts) (s : AState) (vals : List (Option CifValue)) : AState :=
+/-- is the row a hydrogen (`element == "H"`, the test behind `discard_hydrogens`) -/
+def isHydrogenRow (vals : List (Option CifValue)) : Bool :=
+  ((colText ((vals[23]?).join)).val.getD []) == ['H']
+
+/-- one kept row of the atom_site loop; `vals` are the 27 looked-up columns in the order of `atomColumns` -/
+def atomRowCore (onlyFirstModel : Bool) (s : AState) (vals : List (Option CifValue)) : AState :=
   let col (i : Nat) : Option CifValue := (vals[i]?).join
-  -- early cases
   let cEl := colText (col 23)
   let element := cEl.val.getD []
-  if o.discardHydrogens && element == ['H'] then s else
   let cMod := colUsize (col 18)
   let s := { s with errors := s.errors ++ cMod.err, exact := s.exact && cEl.exact && cMod.exact }
   let modelNumber := cMod.val.getD 1
   let (s, skip) :=
-    if o.onlyFirstModel then
+    if onlyFirstModel then
       match s.firstModel with
       | none => ({ s with firstModel := some modelNumber }, false)
       | some f => (s, modelNumber != f)
@@ -284,6 +286,10 @@ def atomRow (o : ReadOpts) (s : AState) (vals : List (Option CifValue)) : AState
       | none => s
       | some m' => { s with models := s.models.set mi m' }
 
+/-- one row of the atom_site loop: hydrogens are dropped first when asked for -/
+def atomRow (o : ReadOpts) (s : AState) (vals : List (Option CifValue)) : AState :=
+  if o.discardHydrogens && isHydrogenRow vals then s else atomRowCore o.onlyFirstModel s vals
+
 /-- the value of one row in the column with the given tag: `positions[i].map(|x| &row[x])` with
 `positions[i] = header.iter().position(|t| t == tag)` -/
 def colLookup (header : List (List Char)) (row : List CifValue) (tag : List Char) : Option CifValue :=
@@ -310,13 +316,18 @@ def parseAtoms (o : ReadOpts) (models : List Model) (header : List (List Char)) 
 
 /-! ## single items -/
 
-structure CState where
+/-- what the single items write to: everything but the hierarchy -/
+structure CMeta where
   info : Meta := {}
   cell : List Flt := ([0, 0, 0, 90, 90, 90] : List Int).map fltInt
-  models : List Model := []
   errors : List CDiag := []
   mtrixId : Option Nat := none
   exact : Bool := true
+  deriving Repr
+
+structure CState where
+  md : CMeta := {}
+  models : List Model := []
   deriving Repr
 
 /-- `parse_matrix`: the entry a name points at (`none` + diagnostic when the name has no usable index) -/
@@ -367,9 +378,9 @@ def startsWithL (s pre : List Char) : Bool := s.take pre.length == pre
 def endsWithL (s suf : List Char) : Bool := s.drop (s.length - suf.length) == suf && suf.length ≤ s.length
 
 /-- one `DataItem::Single` -/
-def stepSingle (s : CState) (name : List Char) (v : CifValue) : CState :=
+def stepSingle (s : CMeta) (name : List Char) (v : CifValue) : CMeta :=
   let nm := String.ofList name
-  let setCell (i : Nat) (angle : Bool) : CState :=
+  let setCell (i : Nat) (angle : Bool) : CMeta :=
     match cellValue v angle with
     | .error e => { s with errors := s.errors ++ [e] }
     | .ok (none, ex) => { s with exact := s.exact && ex }
@@ -457,24 +468,24 @@ def stepCifItem (o : ReadOpts) (s : CState) (it : Item) : CState :=
   | .data (.loop header rows) =>
     if header.contains "atom_site.group_PDB".toList then
       let (ms, e, ex) := parseAtoms o s.models header rows
-      { s with models := ms, errors := s.errors ++ e, exact := s.exact && ex }
+      { md := { s.md with errors := s.md.errors ++ e, exact := s.md.exact && ex }, models := ms }
     else s
-  | .data (.single name v) => if o.onlyAtomicCoords then s else stepSingle s name v
+  | .data (.single name v) => if o.onlyAtomicCoords then s else { s with md := stepSingle s.md name v }
 
 def cifDiag (d : CDiag) : PDiag := ⟨d.1, d.2, []⟩
 
 /-- everything up to the gate -/
 def readCifCore (o : ReadOpts) (b : DataBlock) : PdbFile × List PDiag :=
-  let s0 : CState := { info := { identifier :=
-    if o.onlyAtomicCoords || b.name == ['?'] then none else some (String.ofList b.name) } }
+  let s0 : CState := { md := { info := { identifier :=
+    if o.onlyAtomicCoords || b.name == ['?'] then none else some (String.ofList b.name) } } }
   let s := b.items.foldl (stepCifItem o) s0
-  let dflt : Bool := match s.cell with
+  let dflt : Bool := match s.md.cell with
     | [a, b, c, al, be, ga] => a.isInt 0 && b.isInt 0 && c.isInt 0 && al.isInt 90 && be.isInt 90 && ga.isInt 90
     | _ => true
-  let info := { s.info with cell := if dflt then none else some s.cell }
+  let info := { s.md.info with cell := if dflt then none else some s.md.cell }
   let (pdb, exR) := reshufflePDB { models := s.models }
-  let errors := s.errors.map cifDiag ++ (validate pdb).map fun d => PDiag.mk d.1 d.2 []
-  ({ pdb := pdb, info := info, exact := s.exact && exR }, errors)
+  let errors := s.md.errors.map cifDiag ++ (validate pdb).map fun d => PDiag.mk d.1 d.2 []
+  ({ pdb := pdb, info := info, exact := s.md.exact && exR }, errors)
 
 /-- Is every number that stands where a text is expected one whose `format!("{n}")` the model reproduces
 (an integer below 2^53 with at most 15 digits, or a non-finite value)?  Otherwise the text the code obtains
